@@ -68,11 +68,12 @@ func (f *frame) ReadFrom(r io.Reader) (int64, error) {
 	if err != nil {
 		return n, err
 	}
-	if cap(f.Data) < int(f.header.DataLen) {
-		f.Data = make([]byte, int(f.header.DataLen))
-	} else {
-		f.Data = f.Data[:f.header.DataLen]
+	// DataLen comes from the wire: grow the buffer as the data arrives instead of allocating up front.
+	var buf bytes.Buffer
+	m, err := io.CopyN(&buf, r, int64(f.header.DataLen))
+	f.Data = append(f.Data[:0], buf.Bytes()...)
+	if err == io.EOF {
+		err = io.ErrUnexpectedEOF
 	}
-	m, err := io.ReadFull(r, f.Data)
-	return n + int64(m), err
+	return n + m, err
 }
